@@ -66,6 +66,21 @@ void __real_event_free(struct event *);
 static struct { struct event *ev; int client; int ann; int known; } timers[MAX_TIMERS]; /* in creation order */
 static int n_timers;
 static int feeding_known, feeding_client;   /* the `in` op being fed is one line `<id> C ...` */
+
+/* Plain malloc() hands out indeterminate memory; what a block holds in the real process depends on
+ * what was freed before, i.e. on earlier traffic.  The daemon's own allocator (xmalloc) zeroes, so
+ * this matters only for code that bypasses it.  To make such a dependence observable the blocks are
+ * filled: zero bytes while at most one client id has been announced in this case, 0xff bytes once a
+ * second id has appeared.  A history about one client alone and the same history among other
+ * clients then differ exactly when the code reads memory it never wrote (C07). */
+static int seen_ids[64], n_seen_ids;
+void *__real_malloc(size_t n);
+void *__wrap_malloc(size_t n)
+{
+    void *p = __real_malloc(n);
+    if (p && n && n <= 65536) memset(p, n_seen_ids > 1 ? 0xff : 0x00, n);
+    return p;
+}
 #define MAX_ANN 1024
 static struct { int client, n; } anns[MAX_ANN];
 static int n_anns;
@@ -400,6 +415,22 @@ static void run_case(char **lines, int n)
             char *data = tr_resolve(raw ? raw : "", raw ? rawlen : 0, &len);
             free(raw);
             tr_fed(data, len);
+            {   /* client ids announced so far (any `<id> C ...` line of the chunk) */
+                size_t b = 0, e;
+                while (b < len) {
+                    long long idv;
+                    size_t sp = b;
+                    e = b;
+                    while (e < len && data[e] != '\n') e++;
+                    while (sp < e && data[sp] != ' ') sp++;
+                    if (sp + 1 < e && data[sp + 1] == 'C' && tr_decimal(data + b, sp - b, &idv)) {
+                        int id = tr_wrap32(idv), k, have = 0;
+                        for (k = 0; k < n_seen_ids; k++) if (seen_ids[k] == id) have = 1;
+                        if (!have && n_seen_ids < 64) seen_ids[n_seen_ids++] = id;
+                    }
+                    b = e + 1;
+                }
+            }
             {   /* one whole line `<id> C ...`: timers created while it is handled belong to that id */
                 long long idv;
                 size_t sp = 0;
